@@ -142,6 +142,9 @@ func fillDiskCompletely(srv *Srv, size, total, free0 uint64, viol func(string, .
 		uid++
 		op := &Op{K: OpWrite, H: big.FH, Off: off, Count: n, DataLen: n, Uid: uid, Stable: 0}
 		r := doOp(api, op)
+		if debugOn {
+			fmt.Println("DEBUG fill write off", off, "->", r.Stat, r.Count, "free now", st.Balloc.NumFree())
+		}
 		if r.Stat != stOK || r.Count == 0 {
 			break
 		}
@@ -149,6 +152,13 @@ func fillDiskCompletely(srv *Srv, size, total, free0 uint64, viol func(string, .
 		if r.Count < n {
 			break
 		}
+	}
+	// the moment the disk first ran out (possibly in the middle of a request):
+	// bitmaps, allocators and ownership must agree right now
+	srv.WaitIdle()
+	frm := srv.Fsck(FsckOpts{CheckCaches: true})
+	for _, m := range append(append(frm.Errs, frm.Leaks...), frm.CacheErrs...) {
+		viol("when the disk first ran out of space: %s", m)
 	}
 	for i := 0; st.Balloc.NumFree() > 0 && i < 4000; i++ {
 		uid++
